@@ -427,6 +427,13 @@ def family_unencodable(run):
     if ff.can_encode(ch, run.enc):
         raise HarnessError("unencodable character is encodable")
     evals, labels = _family_unwritable(run, "unencodable", UNENCODABLE, lambda sf, place: _spoil_encoding(sf, place, ch))
+    for sep in ("\u2028", "\x85"):
+        # characters that str.splitlines() treats as line breaks: they are characters of the text like any other
+        if not ff.can_encode(sep, run.enc):
+            e3, l3 = _family_unwritable(run, "unencodable", UNENCODABLE[:3], lambda sf, place: _spoil_encoding(sf, place, sep))
+            evals += e3
+            labels = labels + l3 + ["unencodable:line-separator-character"]
+            break
     seq = DECOMPOSED.get(run.enc)
     if seq and not ff.can_encode(seq, run.enc):
         e2, l2 = _family_unwritable(run, "unencodable", UNENCODABLE, lambda sf, place: _spoil_encoding(sf, place, seq))
